@@ -14,9 +14,12 @@
              BTree::new(storage, 1): see the `Big` cases of Corr/C07.v for what happens otherwise);
      rcount  TableFileHeader.row_count, which answers SELECT COUNT star without a filter;
      kidx    the unique index `id_pkey` / `id_key` of column c0: key value -> stored 8 bytes, read
-             back as a row id (INSERT stores the row id, UPDATE and undo store the primary-key VALUE);
-     sidx    the non-unique index on c1: key = value ++ row id (INSERT) or the bare value (UPDATE,
-             undo), read back by taking the last 8 bytes of the key as the row id;
+             back as a row id (INSERT and UPDATE store the row id, undo stores the primary-key VALUE);
+     sidx    the non-unique index on c1: key = value ++ row id (INSERT, UPDATE, DELETE) or the bare
+             value (undo), read back by taking the last 8 bytes of the key as the row id;
+   (state of /repo after the fix commits of 2026-09-22 15:22: DML skips tombstones, UPDATE / DELETE
+   maintain index entries the way INSERT writes them, index scans skip deleted rows and re-check the
+   WHERE clause; src/database/transaction.rs -- the undo side -- is unchanged)
      nextid  next_row_id.
    A transaction (per handle): the write entries (oldest first) and the savepoint markers. *)
 From Coq Require Import ZArith List Bool.
@@ -138,30 +141,33 @@ Definition pk_info (sch : schema) (w : wclause) (st : tstate) : option (Z * valu
   | Some (C0, v) => if is_pk sch then match kfind v (kidx st) with Some id => Some (id, v) | None => None end else None
   | _ => None
   end.
-(* cursor_seek(row key) then `key == target && row.pk == value` *)
+Definition live (e : ent) : bool := negb (e_del e).
+(* cursor_seek(row key) then `key == target && row.pk == value`; tombstones are skipped (is_tombstone) *)
 Definition pk_target (sch : schema) (w : wclause) (st : tstate) : option ent :=
   match pk_info sch w st with
   | Some (id, v) =>
       match find_ent id (ents st) with
-      | Some e => if value_eqb (c0 (e_row e)) v then Some e else None
+      | Some e => if live e && value_eqb (c0 (e_row e)) v then Some e else None
       | None => None
       end
   | None => None
   end.
-(* the cursor walks over ALL entries, tombstones included *)
+(* otherwise the cursor walks over all entries and skips the tombstones *)
 Definition select (sch : schema) (w : wclause) (st : tstate) : list ent :=
   match pk_target sch w st with
   | Some e => [e]
-  | None => filter (fun e => wmatch w (e_row e)) (ents st)
+  | None => filter (fun e => live e && wmatch w (e_row e)) (ents st)
   end.
 Definition in_sel (sel : list ent) (e : ent) : bool := existsb (fun s => e_id s =? e_id e) sel.
 
 (* ------------------------------------------------------------------ DELETE (delete.rs) *)
+Definition sdel_suf (k : value) (id : Z) (ix : list sent) : list sent :=
+  filter (fun e => negb (skey_is k (Some id) e)) ix.
 Definition del_kidx (sch : schema) (sel : list ent) (ix : list (value * Z)) : list (value * Z) :=
   if keyed sch then fold_left (fun ix e => if is_null (c0 (e_row e)) then ix else kdel (c0 (e_row e)) ix) sel ix else ix.
-(* the loop over "secondary" indexes deletes the key WITHOUT the row-id suffix *)
+(* non-unique index: the key INSERT wrote, column value ++ row id (NULLs included) *)
 Definition del_sidx (sch : schema) (sel : list ent) (ix : list sent) : list sent :=
-  if s_sec sch then fold_left (fun ix e => if is_null (c1 (e_row e)) then ix else sdel_bare (c1 (e_row e)) ix) sel ix else ix.
+  if s_sec sch then fold_left (fun ix e => sdel_suf (c1 (e_row e)) (e_id e) ix) sel ix else ix.
 Definition do_delete (sch : schema) (st : tstate) (w : wclause) : res * tstate * list wentry :=
   let sel := select sch w st in
   let n := zlen sel in
@@ -172,58 +178,58 @@ Definition do_delete (sch : schema) (st : tstate) (w : wclause) : res * tstate *
 
 (* ------------------------------------------------------------------ UPDATE (update.rs:912) *)
 Definition pk_u64 (r : trow) : option Z := match c0 r with VInt p => Some (as_u64 p) | _ => None end.
-(* per selected row: delete the old key, insert new key -> primary-key value (only with an integer
-   primary key); both index loops of update.rs do the same to the unique index of c0 *)
-Definition upd_kidx_row (sch : schema) (v : value) (ix : list (value * Z)) (e : ent) : list (value * Z) :=
+(* per selected row: delete the old key, insert new key -> row id *)
+Definition upd_kidx_row (v : value) (ix : list (value * Z)) (e : ent) : list (value * Z) :=
   let ix1 := if is_null (c0 (e_row e)) then ix else kdel (c0 (e_row e)) ix in
-  if negb (is_null v) && int_pk sch then match v with VInt p => kins v (as_u64 p) ix1 | _ => ix1 end else ix1.
+  if is_null v then ix1 else kins v (e_id e) ix1.
 Definition upd_kidx (sch : schema) (v : value) (sel : list ent) (ix : list (value * Z)) : list (value * Z) :=
-  let pass := fun ix => fold_left (upd_kidx_row sch v) sel ix in
-  if keyed sch then pass (pass ix) else ix.
-Definition upd_sidx_row (sch : schema) (v : value) (ix : list sent) (e : ent) : list sent :=
-  let ix1 := if is_null (c1 (e_row e)) then ix else sdel_bare (c1 (e_row e)) ix in
-  if negb (is_null v) && int_pk sch then match pk_u64 (e_row e) with Some p => sins v None p ix1 | None => ix1 end else ix1.
+  if keyed sch then fold_left (upd_kidx_row v) sel ix else ix.
+Definition upd_sidx_row (v : value) (ix : list sent) (e : ent) : list sent :=
+  sins v (Some (e_id e)) (e_id e) (sdel_suf (c1 (e_row e)) (e_id e) ix).
 Definition upd_sidx (sch : schema) (v : value) (sel : list ent) (ix : list sent) : list sent :=
-  if s_sec sch then fold_left (upd_sidx_row sch v) sel ix else ix.
-(* wrap_record_for_update writes a fresh header: the row is live again *)
+  if s_sec sch then fold_left (upd_sidx_row v) sel ix else ix.
 Definition upd_ents (sc : colid) (v : value) (sel : list ent) (es : list ent) : list ent :=
   map (fun e => if in_sel sel e then mkEnt (e_id e) false (setc sc v (e_row e)) else e) es.
 Definition uniq_clash (v : value) (ix : list (value * Z)) (e : ent) : bool :=
   match kfind v ix with Some s => negb (s =? e_id e) | None => false end.
+(* the unique check of a key UPDATE: the first row against the index, every further row against
+   the rows before it (they all receive the same value) *)
+Definition upd_dup (v : value) (ix : list (value * Z)) (sel : list ent) : bool :=
+  match sel with
+  | [] => false
+  | e :: rest => uniq_clash v ix e || negb (match rest with [] => true | _ => false end)
+  end.
+
+(* the general path: collect, validate, check uniqueness, maintain the indexes, write *)
+Definition upd_multi (sch : schema) (st : tstate) (sc : colid) (v : value) (w : wclause) : res * tstate * list wentry :=
+  let key_mod := is_c0 sc && keyed sch in
+  let sel := select sch w st in
+  if negb (match sel with [] => true | _ => false end) && is_c0 sc && is_pk sch && is_null v then (RErr, st, [])
+  else if key_mod && negb (is_null v) && upd_dup v (kidx st) sel then (RErr, st, [])
+  else
+    (RAff (zlen sel),
+     mkT (upd_ents sc v sel (ents st)) (rcount st)
+         (if is_c0 sc then upd_kidx sch v sel (kidx st) else kidx st)
+         (if is_c0 sc then sidx st else upd_sidx sch v sel (sidx st)) (nextid st),
+     map (fun e => WOld (e_id e) e) sel).
+
+(* does an index contain the assigned column? (needs_old_row_for_secondary_index) *)
+Definition idx_mod (sch : schema) (sc : colid) : bool := if is_c0 sc then keyed sch else s_sec sch.
 
 Definition do_update (sch : schema) (st : tstate) (sc : colid) (v : value) (w : wclause) : res * tstate * list wentry :=
-  let key_mod := is_c0 sc && keyed sch in
   match pk_info sch w st with
   | Some (id, wv) =>
-      if negb key_mod && negb (has_toast sch) then
-        (* one-pass path: no index maintenance at all, no fallback *)
+      if negb (idx_mod sch sc) && negb (has_toast sch) then
+        (* one-pass path (WHERE pk = literal, no index on the assigned column, no TEXT column): no fallback *)
         match find_ent id (ents st) with
         | Some e =>
-            if value_eqb (c0 (e_row e)) wv then
+            if live e && value_eqb (c0 (e_row e)) wv then
               (RAff 1, mkT (upd_ents sc v [e] (ents st)) (rcount st) (kidx st) (sidx st) (nextid st), [WOld id e])
             else (RAff 0, st, [])
         | None => (RAff 0, st, [])
         end
-      else
-        let sel := select sch w st in
-        if negb (match sel with [] => true | _ => false end) && is_c0 sc && is_pk sch && is_null v then (RErr, st, [])
-        else if key_mod && negb (is_null v) && existsb (uniq_clash v (kidx st)) sel then (RErr, st, [])
-        else
-          (RAff (zlen sel),
-           mkT (upd_ents sc v sel (ents st)) (rcount st)
-               (if is_c0 sc then upd_kidx sch v sel (kidx st) else kidx st)
-               (if is_c0 sc then sidx st else upd_sidx sch v sel (sidx st)) (nextid st),
-           map (fun e => WOld (e_id e) e) sel)
-  | None =>
-      let sel := select sch w st in
-      if negb (match sel with [] => true | _ => false end) && is_c0 sc && is_pk sch && is_null v then (RErr, st, [])
-      else if key_mod && negb (is_null v) && existsb (uniq_clash v (kidx st)) sel then (RErr, st, [])
-      else
-        (RAff (zlen sel),
-         mkT (upd_ents sc v sel (ents st)) (rcount st)
-             (if is_c0 sc then upd_kidx sch v sel (kidx st) else kidx st)
-             (if is_c0 sc then sidx st else upd_sidx sch v sel (sidx st)) (nextid st),
-         map (fun e => WOld (e_id e) e) sel)
+      else upd_multi sch st sc v w
+  | None => upd_multi sch st sc v w
   end.
 
 (* ------------------------------------------------------------------ undo (transaction.rs:621 undo_write_entry) *)
@@ -303,20 +309,22 @@ Fixpoint run (sch : schema) (ops : list op) (s : tstate * option txn) : tstate *
   match ops with [] => s | o :: ops' => run sch ops' (snd (exec sch o s)) end.
 
 (* ------------------------------------------------------------------ what a client can observe *)
-Definition live (e : ent) : bool := negb (e_del e).
 (* SELECT star: the scan skips DELETE_BIT and nothing else *)
 Definition scan (st : tstate) : list trow := map e_row (filter live (ents st)).
 Definition count_star (st : tstate) : Z := rcount st.
-(* SecondaryIndexScan materialises table_reader.get(row key) without looking at the header *)
+(* SecondaryIndexScan fetches table_reader.get(row key), skips tombstones and evaluates the whole
+   WHERE clause on what it fetched *)
 Definition get_row (id : Z) (st : tstate) : list trow :=
-  match find_ent id (ents st) with Some e => [e_row e] | None => [] end.
+  match find_ent id (ents st) with Some e => if live e then [e_row e] else [] | None => [] end.
 (* the planner turns `col = literal` into an index scan only for a plain literal: a negative number
    is a unary minus applied to a literal and stays a Filter over the table scan *)
 Definition indexable (v : value) : bool :=
   match v with VInt n => 0 <=? n | VText _ => true | _ => false end.
 (* SELECT star WHERE c0 = v *)
 Definition lookup0 (sch : schema) (st : tstate) (v : value) : list trow :=
-  if keyed sch && indexable v then flat_map (fun p => if value_eqb (fst p) v then get_row (snd p) st else []) (kidx st)
+  if keyed sch && indexable v then
+    filter (fun r => value_eqb (c0 r) v)
+           (flat_map (fun p => if value_eqb (fst p) v then get_row (snd p) st else []) (kidx st))
   else filter (fun r => value_eqb (c0 r) v) (scan st).
 (* the last 8 bytes of a bare integer key: the payload of encode_int (the 1-byte key of 0 is skipped) *)
 Definition bare_rid (v : value) : option Z :=
@@ -325,7 +333,8 @@ Definition sent_rid (e : sent) : option Z := match s_suf e with Some id => Some 
 (* SELECT star WHERE c1 = v *)
 Definition lookup1 (sch : schema) (st : tstate) (v : value) : list trow :=
   if s_sec sch && indexable v then
-    flat_map (fun e => if value_eqb (s_key e) v then match sent_rid e with Some id => get_row id st | None => [] end else []) (sidx st)
+    filter (fun r => value_eqb (c1 r) v)
+           (flat_map (fun e => if value_eqb (s_key e) v then match sent_rid e with Some id => get_row id st | None => [] end else []) (sidx st))
   else filter (fun r => value_eqb (c1 r) v) (scan st).
 (* would INSERT of the single row r be accepted? *)
 Definition ins_ok (sch : schema) (st : tstate) (r : trow) : bool := nn_ok sch r && uniq_ok sch st r.
